@@ -296,13 +296,19 @@ VALUE_POOL = ["x", "y", "cortex-m4", "+a,+b", "true", "é", "世界", " sp ace "
 def gen_forest(rng, fields, idx):
     """fields: [(GoField, kind, tag)] of the current Config.  Returns (files: name->text, meta)"""
     shape = rng.choice(["single", "chain", "chain", "tree", "dag", "dag", "diamond", "diamond", "multi", "cycle", "selfcycle",
-                        "missing", "bad", "deep", "dup-parent", "cycle-after-missing"])
-    n = {"single": 1, "selfcycle": rng.choice([1, 2, 3]), "diamond": rng.choice([4, 5, 6]), "deep": 6}.get(shape, rng.choice([2, 3, 3, 4, 5, 6, 8]))
+                        "missing", "bad", "deep", "dup-parent", "cycle-after-missing", "longchain"])
+    # longchain: an acyclic single-parent chain far deeper than any shipped target (the property holds for ANY acyclic set;
+    # resolve_acyclic has no depth bound) - lengths around powers of two and below the model's fuel
+    n = {"single": 1, "selfcycle": rng.choice([1, 2, 3]), "diamond": rng.choice([4, 5, 6]), "deep": 6,
+         "longchain": rng.choice([9, 12, 16, 17, 18, 24, 32, 33, 48, 60])}.get(shape, rng.choice([2, 3, 3, 4, 5, 6, 8]))
     names = ["n%d" % i for i in range(n)]
     if rng.random() < 0.1:
         names = [rng.choice(["t-", "x.y", "Ünï", "a b", "0"]) + nm for nm in names]
     inh = {nm: [] for nm in names}
-    if shape in ("chain", "deep"):
+    if shape == "longchain":
+        for i in range(n - 1):
+            inh[names[i]] = [names[i + 1]]
+    elif shape in ("chain", "deep"):
         for i in range(min(n - 1, 5)):
             inh[names[i]] = [names[i + 1]]
     elif shape == "diamond":
@@ -325,7 +331,7 @@ def gen_forest(rng, fields, idx):
             return 0
         return 1 + max([depth(p, seen + (nm,)) for p in inh.get(nm, [])] or [0])
     for nm in names:
-        while depth(nm) > 6 and inh[nm]:
+        while shape != "longchain" and depth(nm) > 6 and inh[nm]:
             inh[nm].pop()
     risky = False
     if shape == "cycle" and n >= 2:
